@@ -229,7 +229,7 @@ def run_one(job):
 
 def main():
     flt = [a for a in sys.argv[1:] if not a.startswith("--")]
-    jobs_n = 12
+    jobs_n = int(os.environ.get("NF_JOBS", "12"))
     jobs = []
     for rel, qual in named_functions():
         if flt and not any(f in rel + ":" + qual for f in flt):
